@@ -42,10 +42,27 @@ let enc_outcome o = match o with
   | OutOfFuel -> L [A "OutOfFuel"]
 
 (* ---------- handlers ---------- *)
+let dec_outcome x : dtag * record list = match x with
+  | L [A "Done"; d] -> (TDone, dec_list dec_record d)
+  | L [A "Stalled"; d] -> (TStalled, dec_list dec_record d)
+  | _ -> (TOther, [])
+let chk name b = L [A name; enc_bool b]
+let sim_checks p prog (tg, d) =
+  L (A "chk" :: [
+    chk "C01" (c01_order_checkb p prog d && c01_replay_checkb p prog tg d);
+    chk "C02" (c02_checkb p prog d);
+    chk "C03" (c03_checkb p prog tg d);
+    chk "C04" (c04_checkb p d);
+    chk "C05" (c05_checkb p prog d);
+    chk "C06" (c06_checkb p prog d);
+    chk "C07" (c07_checkb p prog d);
+    chk "C08" (c08_checkb p prog tg d) ])
 let h_sim args = match args with
-  | p :: prog :: _ ->
+  | p :: prog :: impl :: _ ->
     let p = dec_proc p and prog = dec_list dec_instr prog in
-    [L [A "model"; enc_outcome (simulate_default p prog)]]
+    [L [A "model"; enc_outcome (simulate_default p prog)];
+     L [A "wf"; enc_bool (wf_procb p)];
+     sim_checks p prog (dec_outcome impl)]
   | _ -> bad "sim args"
 
 let handlers : (Stdlib.String.t * (sx list -> sx list)) list = [
